@@ -46,9 +46,9 @@ static std::set<int> open_fds ()
 static std::string gen_op (int mode, bool valid_bias)
 {	// classes: r/w valid, rx ry rn (misaligned / wrong mode / negative), s valid seeks, sb sm so, c valid commands, cu cn, t strings, k chunks, o opens
 	static const char *valid [] = { "r", "r", "w", "w", "s", "s", "c", "t" } ;
-	static const char *invalid [] = { "rx", "rn", "wx", "wn", "sb", "sm", "so", "sn", "cu", "cn", "tr", "tn", "tu", "te", "te", "kn", "kf", "o0", "o1", "o2", "o3", "o4", "o5", "o6", "o7", "o8", "o9", "oA", "oB", "oC", "rm", "wm" } ;
+	static const char *invalid [] = { "rx", "rn", "wx", "wn", "sb", "sm", "so", "sn", "cu", "cn", "tr", "tn", "tu", "te", "te", "kn", "kf", "o0", "o1", "o2", "o3", "o4", "o5", "o6", "o7", "o8", "o9", "oA", "oB", "oC", "rm", "wm", "wq", "rq", "wq", "rq" } ;
 	std::string s ;
-	if (*rangeOf<int> (0, 9) < (valid_bias ? 6 : 4)) s = valid [*rangeOf<int> (0, 7)] ; else s = invalid [*rangeOf<int> (0, 31)] ;
+	if (*rangeOf<int> (0, 9) < (valid_bias ? 6 : 4)) s = valid [*rangeOf<int> (0, 7)] ; else s = invalid [*rangeOf<int> (0, 35)] ;
 	s += ":" ; s += "sifd" [*rangeOf<int> (0, 3)] ; s += *rangeOf<int> (0, 1) ? 'i' : 'f' ; s += std::to_string (*rc::gen::element (1, 2, 7, 64, 300)) ;
 	(void) mode ;
 	return s ;
@@ -149,6 +149,17 @@ static Result run_case (const Case &c)
 				rpos += gfr ;
 			}
 			r.classes.push_back (expect_invalid ? "invalid:read" : "valid:read") ;
+		}
+		else if (op == "wq" || op == "rq")
+		{	// raw transfer whose byte count is not a whole number of frames: must be refused (SFE_BAD_WRITE_ALIGN / SFE_BAD_READ_ALIGN), block codecs included
+			if (ch < 2) continue ; if (op == "wq" && mode == SFM_READ) continue ; if (op == "rq" && mode == SFM_WRITE) continue ;
+			const Codec *cdq = codec_of (rep.format) ; long long bwq = (cdq && cdq->granular && cdq->bytes > 0 ? cdq->bytes : 1) * (long long) ch ; long long bytes = k * bwq + 1 + (long long) (rng.below ((uint64_t) (ch - 1))) ;
+			if (bytes % bwq == 0) bytes ++ ;
+			Block b ((size_t) bytes) ; memset (b.p, 0x11, b.n) ;
+			sf_count_t got = op == "wq" ? sf_write_raw (f, b.p, bytes) : sf_read_raw (f, b.p, bytes) ;
+			// at end of data a raw read returns 0 before it looks at the alignment: only the return value is asserted then
+			expect_invalid = true ; tierA = !(op == "rq" && sf_error (f) == 0 && got == 0) ; failed_value = got == 0 ;
+			r.classes.push_back (op == "wq" ? "invalid:raw_write_misaligned" : "invalid:raw_read_misaligned") ;
 		}
 		else if (op == "w" || op == "wx" || op == "wn" || op == "wm")
 		{	long long cnt = items ? k * ch : k ;
